@@ -34,7 +34,11 @@ def cases(ctx):
                 "FlE": {"oneOf": [{"type": "object", "properties": {"A": {"type": "number"}}, "required": ["A"], "additionalProperties": False},
                                   {"type": "string", "enum": ["B"]}]}})
     holder = {"title": "Holder", "type": "object", "properties": {k.lower(): {"$ref": "#/definitions/" + k} for k in lat}, "definitions": lat}
-    for st in settings[:2] + [{"derives": ["::altser::Serialize", "::altser::Deserialize", "Eq"]}, {"derives": ["::std::hash::Hash", "::std::fmt::Debug"]}]:
+    # ... and under a conversion registered for exactly the PLAIN string schema (constrained strings are other schemas: their
+    # newtypes keep their surface whatever plain strings convert to)
+    conv = lambda ty: {"convert": [{"schema": {"type": "string"}, "type": ty, "impls": ["Display", "FromStr", "Default"]}]}
+    for st in settings[:2] + [{"derives": ["::altser::Serialize", "::altser::Deserialize", "Eq"]}, {"derives": ["::std::hash::Hash", "::std::fmt::Debug"]},
+                              conv("::std::boxed::Box<str>"), conv("::std::borrow::Cow<'static, str>")]:
         out.append(("lattice", {"settings": st, "calls": [{"root": holder}]}))
     import corpus
     for cid, cdoc, _ in corpus.documents():
